@@ -996,9 +996,11 @@ class IntermediateCodeGen(AbstractCodeGen):
         self._importMap.clear()
         self._out.clear()
         self._moduleIdentityOid = None
+        self._moduleRevision = None
         self._enterpriseOid = None
         self._oids = set()
         self._complianceOids = []
+        self.fakeidx = self.__class__.fakeidx
         self.moduleName[0], moduleOid, imports, declarations = ast
 
         outDict, importedModules = self.genImports(imports and imports or {})
